@@ -254,7 +254,12 @@ class _ReusablePoolExecutor(ProcessPoolExecutor):
             ):
                 time.sleep(1e-3)
 
-            self._adjust_process_count()
+            # Spawn the missing workers under the management lock, as submit()
+            # does: a new worker must be registered in self._processes before
+            # it is allowed to announce an idle-timeout exit, otherwise the
+            # manager thread cannot complete the exit handshake with it.
+            with self._processes_management_lock:
+                self._adjust_process_count()
             # Wait for the new workers to be started. A worker that already
             # exited (idle timeout, crash) will never be alive again: do not
             # wait for it.
